@@ -8,6 +8,7 @@ import (
 
 // further tables are added here as the properties that need them are built
 func extraTables(v *bytes.Buffer, repo string, kmd *pkgFiles) {
+	writeTable(v, "profile_store_sites", "(function, callee, class of the user-name argument, argument) of every profile-store call in cmd/keymasterd; class: authenticated | parameter | all | request", 4, profileStoreSites(kmd))
 	writeTable(v, "raw_html_sinks", "(function, class, expression) of every conversion to template.HTML in cmd/keymasterd; class: escaped | base64 | literal | raw", 3, rawHTMLSinks(kmd))
 	c20Tables(v, repo, kmd)
 	c19Tables(v, repo, kmd)
